@@ -45,7 +45,7 @@ Example C05_nonvacuous :
      CT_OP; CT_ADD 1 1 1 7 None None false false true 0 false; HM_PUSH 1 true 1 true 0;
      CT_RENDERBEGIN; HM_SYNC 2 true 0; HM_ITERREQ true 2; CT_RENDERSIZE 80 80;
      BAR_RENDER 0 0 5 0 false false 0; BAR_RENDER 1 0 7 0 false false 0;
-     HM_POP 1 1; HM_POP 0 0; CT_FLUSHBAR 1 0 1 false false; CT_FLUSHBAR 0 0 1 false false;
+     HM_POP 1 1; HM_POP 0 0; CT_FLUSHBAR 1 0 1 false false false; CT_FLUSHBAR 0 0 1 false false false;
      CT_FRAME 2 0;
      OUT [IRow 0 0 5 false false; IRow 1 0 7 false false]] = Some s
   /\ fifo s = [QPush 1 false; QPush 0 false] /\ cycle_flushed s = [1; 0].
